@@ -185,6 +185,15 @@ func c14Cases() []c14Case {
 	}
 	// e. style object
 	out = append(out,
+		// a bound value written with mustaches (wholly or partly): the interpolated text is the value - it is not an object literal although it
+		// begins with `{` and ends with `}`
+		c14Case{desc: "bound-interpolated:whole", tpl: `<p :title="{{ name }}">t</p>`, data: map[string]any{"name": "Ann"}, want: map[string]string{"title": "Ann"}},
+		c14Case{desc: "bound-interpolated:whole-vbind", tpl: `<p v-bind:title="{{ name }}">t</p>`, data: map[string]any{"name": "Ann"}, want: map[string]string{"title": "Ann"}},
+		c14Case{desc: "bound-interpolated:two-mustaches", tpl: `<p :title="{{ first }} {{ last }}">t</p>`, data: map[string]any{"first": "Ann", "last": "Lee"}, want: map[string]string{"title": "Ann Lee"}},
+		c14Case{desc: "bound-interpolated:over-static", tpl: `<p title="static" :title="{{ name }}">t</p>`, data: map[string]any{"name": "Ann"}, want: map[string]string{"title": "Ann"}},
+		c14Case{desc: "bound-interpolated:class-merge", tpl: `<p class="box" :class="{{ cls }}">t</p>`, data: map[string]any{"cls": "active"}, want: map[string]string{"class": "box active"}},
+		c14Case{desc: "bound-interpolated:prefix-text", tpl: `<p :title="Dr. {{ name }}">t</p>`, data: map[string]any{"name": "Ann"}, want: map[string]string{"title": "Dr. Ann"}},
+		c14Case{desc: "bound-interpolated:suffix-text", tpl: `<p :data-href="{{ base }}/x">t</p>`, data: map[string]any{"base": "/b"}, want: map[string]string{"data-href": "/b/x"}},
 		c14Case{desc: "style-object:kebab", tpl: `<p :style="{fontSize: '12px', color: c}">t</p>`, data: map[string]any{"c": "blue"}, want: map[string]string{"style": ""}, style: map[string]string{"font-size": "12px", "color": "blue"}},
 		c14Case{desc: "style-object:override", tpl: `<p style="color: red; margin: 0" :style="{color: c, backgroundColor: 'white'}">t</p>`, data: map[string]any{"c": "blue"}, want: map[string]string{"style": ""}, style: map[string]string{"color": "blue", "margin": "0", "background-color": "white"}},
 		// a static style that declares a property more than once (the CSS fallback idiom): what counts is the declaration that wins the cascade
